@@ -144,7 +144,8 @@ func (g *GenCfg) genNode(r *RNG, goType string, depth int, embedded bool) T {
 			}
 			continue
 		case "Type":
-			if !(embedded && g.EmptyTypes && r.Chance(15)) {
+			// only a plain Object can do without its type: the type is what tells the decoders which struct to build
+			if !(embedded && g.EmptyTypes && goType == "Object" && r.Chance(25)) {
 				f[name] = T{"s": r.Pick(vocab[goType])}
 			}
 			continue
